@@ -75,6 +75,9 @@ func renderIncludeName(n string) string {
 // not depend on it; c07-replay rotates it.
 var projEOL = "\n"
 
+// projPad pads every line of the project files with trailing blanks to this length (0 = no padding); rotated as well.
+var projPad = 0
+
 func writeProject(base string, content map[string][]Tok, prependJSIGHT bool) (*project, error) {
 	p := &project{dir: filepath.Join(base, "proj"), files: map[string]rendered{}}
 	if err := os.MkdirAll(filepath.Join(p.dir, "sub"), 0o755); err != nil {
@@ -103,6 +106,19 @@ func writeProject(base string, content map[string][]Tok, prependJSIGHT bool) (*p
 			for i := range rd.tokLine {
 				rd.tokLine[i]++
 			}
+		}
+		if projPad > 0 {
+			// every line padded with trailing blanks to projPad bytes: the quote of an error is the line, cut at 200 bytes
+			ls := strings.Split(rd.text, "\n")
+			for i, l := range ls {
+				if i == len(ls)-1 && l == "" {
+					continue
+				}
+				if len(l) < projPad {
+					ls[i] = l + strings.Repeat(" ", projPad-len(l))
+				}
+			}
+			rd.text = strings.Join(ls, "\n")
 		}
 		if projEOL != "\n" {
 			rd.text = strings.ReplaceAll(rd.text, "\n", projEOL)
@@ -270,10 +286,11 @@ func shapeKey(cs *c07Case) string {
 func c07One(res *Result, base string, cs *c07Case, distinct map[string]struct{}) {
 	// the line-break convention of the files is an environment choice as well: LF, CRLF, CR in turn
 	projEOL = []string{"\n", "\r\n", "\r"}[((res.Cases+spellingSeed)/4)%3]
+	projPad = []int{0, 0, 199, 200, 0, 201, 260}[((res.Cases+spellingSeed)/12)%7]
 	if selftestEOL {
-		projEOL = "\n"
+		projEOL, projPad = "\n", 0
 	}
-	defer func() { projEOL = "\n" }()
+	defer func() { projEOL, projPad = "\n", 0 }()
 	p, err := writeProject(base, cs.Content, false)
 	if err != nil {
 		res.Error = err.Error()
@@ -283,7 +300,7 @@ func c07One(res *Result, base string, cs *c07Case, distinct map[string]struct{})
 	for n, rd := range p.files {
 		files[n] = rd.text
 	}
-	replay := map[string]any{"kind": "c07", "case": cs, "files": files, "eol": projEOL}
+	replay := map[string]any{"kind": "c07", "case": cs, "files": files, "eol": projEOL, "pad": projPad}
 	nInc := 0
 	for _, tt := range cs.Content {
 		for _, t := range tt {
